@@ -38,6 +38,11 @@ def _impl(spec):
         if how == "group":
             t = _task(kids[0]["fn"])
             total += sum(t.parallelize([(c,) for c in kids]).results)
+        elif how == "cgroup":
+            # common_args + heterogeneous per-call dictionaries (a key set by one element must not leak into the next)
+            t = _task(kids[0]["fn"])
+            params = [{"spec": c, **({"bonus": c["bonus"]} if c.get("bonus") else {})} for c in kids]
+            total += sum(t.parallelize(params, common_args={"extra": spec.get("extra", 0)}).results)
         elif how == "direct":
             app = _app()
             for c in kids:
@@ -54,49 +59,49 @@ def _impl(spec):
     raise EXC[action](f"node {nid}", attempt)
 
 
-def p_r0(spec):
-    return _impl(spec)
+def p_r0(spec, bonus=0, extra=0):
+    return _impl(spec) + bonus + extra
 
 
-def p_r1(spec):
-    return _impl(spec)
+def p_r1(spec, bonus=0, extra=0):
+    return _impl(spec) + bonus + extra
 
 
-def p_r2(spec):
-    return _impl(spec)
+def p_r2(spec, bonus=0, extra=0):
+    return _impl(spec) + bonus + extra
 
 
-def p_r3(spec):
-    return _impl(spec)
+def p_r3(spec, bonus=0, extra=0):
+    return _impl(spec) + bonus + extra
 
 
-def p_r1_v(spec):
-    return _impl(spec)
+def p_r1_v(spec, bonus=0, extra=0):
+    return _impl(spec) + bonus + extra
 
 
-def p_r2_v(spec):
-    return _impl(spec)
+def p_r2_v(spec, bonus=0, extra=0):
+    return _impl(spec) + bonus + extra
 
 
-def p_r2_kv(spec):
-    return _impl(spec)
+def p_r2_kv(spec, bonus=0, extra=0):
+    return _impl(spec) + bonus + extra
 
 
-def p_r0_v(spec):
-    return _impl(spec)
+def p_r0_v(spec, bonus=0, extra=0):
+    return _impl(spec) + bonus + extra
 
 
 # direct-task flavour: separate functions (a function can carry one task per app)
-def d_p_r0(spec):
-    return _impl(spec)
+def d_p_r0(spec, bonus=0, extra=0):
+    return _impl(spec) + bonus + extra
 
 
-def d_p_r1(spec):
-    return _impl(spec)
+def d_p_r1(spec, bonus=0, extra=0):
+    return _impl(spec) + bonus + extra
 
 
-def d_p_r2_v(spec):
-    return _impl(spec)
+def d_p_r2_v(spec, bonus=0, extra=0):
+    return _impl(spec) + bonus + extra
 
 
 DIRECT_VARIANTS = {"d_p_r0": "p_r0", "d_p_r1": "p_r1", "d_p_r2_v": "p_r2_v"}
@@ -145,6 +150,8 @@ def model_run(spec, counts):
             total = spec["v"]
             for c in spec.get("children", []):
                 total += model_run(c, counts)
+                if spec.get("call") == "cgroup":
+                    total += c.get("bonus", 0) + spec.get("extra", 0)
             action = spec["script"][min(attempt - 1, len(spec["script"]) - 1)]
             if action == "return":
                 return total
